@@ -52,17 +52,24 @@ func (g *idGhost) Digest() []byte {
 
 func (m *C14) NewGhost(_ *chain.Chain, _ sdk.Context, s *chain.Snapshot) explore.Ghost {
 	g := &idGhost{next: map[string]uint64{}, made: map[string]bool{}, seed: map[string]bool{}}
+	// numbering starts at 1: a stored counter of 0 (which genesis validation rejects) is not a valid start
+	from := func(n uint64) uint64 {
+		if n == 0 {
+			return 1
+		}
+		return n
+	}
 	for _, x := range s.ClassSeqs {
-		g.next["class/"+x.CreditTypeAbbrev] = x.NextSequence
+		g.next["class/"+x.CreditTypeAbbrev] = from(x.NextSequence)
 	}
 	for _, x := range s.ProjectSeqs {
 		if c := s.ClassByKey(x.ClassKey); c != nil {
-			g.next["project/"+c.Id] = x.NextSequence
+			g.next["project/"+c.Id] = from(x.NextSequence)
 		}
 	}
 	for _, x := range s.BatchSeqs {
 		if p := s.ProjectByKey(x.ProjectKey); p != nil {
-			g.next["batch/"+p.Id] = x.NextSequence
+			g.next["batch/"+p.Id] = from(x.NextSequence)
 		}
 	}
 	for _, c := range s.Classes {
@@ -136,6 +143,28 @@ func (m *C14) OnStep(gh explore.Ghost, st *explore.Step) []V {
 	case *basetypes.MsgCreateClass:
 		if r, ok := st.Res.Resp.(*basetypes.MsgCreateClassResponse); ok {
 			wantClass(msg.CreditTypeAbbrev, r.ClassId)
+			// the issuer rows written by this message refer to the class it created
+			if cl := st.Post.ClassByID(r.ClassId); cl != nil {
+				pre := map[string]bool{}
+				for _, ci := range st.Pre.ClassIssuers {
+					pre[fmt.Sprintf("%d/%s", ci.ClassKey, addrStr(ci.Issuer))] = true
+				}
+				have := map[string]bool{}
+				for _, ci := range st.Post.ClassIssuers {
+					k := fmt.Sprintf("%d/%s", ci.ClassKey, addrStr(ci.Issuer))
+					if !pre[k] && ci.ClassKey != cl.Key {
+						out = append(out, V{Kind: "C14/issuer-row-refers-to-another-class", Detail: fmt.Sprintf("%s created class %s (key %d) but wrote issuer row %s", st.Act.Label, cl.Id, cl.Key, k)})
+					}
+					if ci.ClassKey == cl.Key {
+						have[addrStr(ci.Issuer)] = true
+					}
+				}
+				for _, is := range msg.Issuers {
+					if !have[is] {
+						out = append(out, V{Kind: "C14/issuer-of-new-class-missing", Detail: fmt.Sprintf("%s: class %s has no issuer row for %s", st.Act.Label, cl.Id, is)})
+					}
+				}
+			}
 		}
 	case *basetypes.MsgCreateProject:
 		if r, ok := st.Res.Resp.(*basetypes.MsgCreateProjectResponse); ok {
